@@ -2,7 +2,8 @@
    Only statements + `exact`; proofs in C16Proofs.v / C16ProofsMc.v / C16ProofsGain.v (and, for the
    shared free functions, C08ProofsBox.v), state model proofs in C16GradProofs / C16SmoProofs / C16SmoSimplexProofs /
    C16InitProofs / C16TablesProofs / C16DeactProofs / C16UnshrinkProofs / C16ShrinkProofs / C16SimplexShrinkProofs /
-   C16HistProofs; executable models in C16Model.v (+ C08Model.v) and C16State.v.
+   C16HistProofs, linear solvers in C16LinearProofs; executable models in C16Model.v (+ C08Model.v), C16State.v
+   and C16Linear.v.
 
    PROPERTY (properties.jsonl): for every multi-class formulation the trained decision function is,
    within the solver accuracy, the same with shrinking on/off, cached (any admissible size) or
@@ -66,6 +67,18 @@
          shrink / unshrink / addDeltaLinear keeps the full invariant; C16_every_history_box_objective: the box
          class never loses objective over a history; C16_labels_follow_examples: labels must be read by data
          index after shrinking (repair 295c135c).
+     * LINEAR SOLVERS, model C16Linear.v (calcGradient / solveSub / updateWeightVectors of the eight QpMcLinear*
+       classes and the coordinate step of QpBoxLinear as coded; the inner products <w_c, x_i> are inputs of a step):
+       solveSub of WW / LLW / ATS / reinforced keeps 0 <= alpha <= C and returns mu = alpha' - alpha for every gradient
+       input (C16_linear_solveSub_box); solveSub of CS / ADM / ATM keeps alpha >= 0, sum_c alpha(c) <= alpha(K) <= C
+       (C16_linear_solveSub_simplex_partial: the equalities mu = alpha' - alpha and sum = alpha(K) need that no
+       gradient reaches the 1e100 sentinel of the working-set search and are only compared / monitored);
+       updateWeightVectors is linear (C16_linear_weight_update_is_linear), hence the book-keeping
+       w_c = sum_i step(alpha_i)(c) x_i is kept by every example step (C16_linear_w_bookkeeping for the box-type
+       machines, C16_linear_w_bookkeeping_generic for any step with mu = alpha' - alpha); QpBoxLinear: every epoch
+       keeps 0 <= alpha <= bound and w = sum_i alpha_i y_i x_i (C16_boxlinear_epoch).
+       NOT claimed: that the gradient kept inside solveSub is the true gradient (it is not for QpMcLinearATM when the
+       label class takes part in a two-variable step - recorded in the evidence notes), nor the reported gain.
    NOT PROVED - the property's main clauses (configuration invariance, two-class reduction,
    kernel-vs-linear primal objective) would need convergence proofs of the decomposition solvers.
    They are MONITORED on every run by tools/c16.py on the real trainers (metamorphic runs with a
@@ -75,11 +88,13 @@
    COMPARED on every run: the float instantiation of C16Model (free functions exactly; update steps
    one step at a time on the implementation's own previous state) and of C16State (constructor, updateSMO,
    shrink, unshrink, addDeltaLinear: the full positional state after each operation, bit for bit, from the
-   implementation's own previous state) vs. the compiled C++; table / kernel-permutation monitors. *)
+   implementation's own previous state) and of C16Linear (every example step of the eight linear multi-class solvers
+   through their real virtual functions; QpBoxLinear::solve one epoch per call with the schedule re-derived from
+   the seed) vs. the compiled C++; table / kernel-permutation / book-keeping monitors. *)
 From Coq Require Import QArith Qabs List.
 From SharkV Require Import C08Model C08Defs C08ProofsBox C16Model C16Proofs C16ProofsMc C16ProofsGain.
 From SharkV Require Import C16State C16StateDefs C16GradProofs C16SmoProofs C16SmoSimplexProofs C16InitProofs
-  C16TablesProofs C16DeactProofs C16UnshrinkProofs C16ShrinkProofs C16SimplexShrinkProofs C16HistProofs C16WitnessProofs.
+  C16TablesProofs C16DeactProofs C16UnshrinkProofs C16ShrinkProofs C16SimplexShrinkProofs C16HistProofs C16WitnessProofs C16Linear C16LinearProofs.
 Import ListNotations.
 Open Scope Q_scope.
 
@@ -477,3 +492,66 @@ Example C16_history_hyps_sat :
   wf_mrun 1 2 2 1 wMrow wMdef wK0 false true ws0 [MSmo 0%nat 1%nat; MShrink (1 # 10); MUnshrink] /\
   Forall no_addlin [MSmo 0%nat 1%nat; MShrink (1 # 10); @MUnshrink Q].
 Proof. exact w_hist_hyps. Qed.
+
+(* ======================================================================================================
+   LINEAR SOLVERS (C16Linear.v): one example step of QpMcLinear* (calcGradient, solveSub, updateWeightVectors as
+   coded), one epoch of QpBoxLinear.  The inner products <w_c, x_i> are inputs of the step.
+   ====================================================================================================== *)
+
+(* solveSub of the box-type machines (WW, LLW, ATS, reinforced): box kept, mu = alpha' - alpha, for EVERY gradient,
+   curvature and accuracy and any number of inner iterations *)
+Theorem C16_linear_solveSub_box : forall (K : nat) (C : Q), 0 <= C ->
+  forall (k : lkind) (fuel : nat) (eps q : Q) (y : nat) (s : lsub Q), BoxOK C (l_al s) ->
+  BoxOK C (l_al (sub_box qops 1 K (Kq K) C k fuel eps q y s)) /\
+  MuOK (l_al s) (l_mu s) (sub_box qops 1 K (Kq K) C k fuel eps q y s).
+Proof. exact sub_box_spec. Qed.
+Print Assumptions C16_linear_solveSub_box.
+
+(* solveSub of the simplex-type machines (CS, ADM, ATM): alpha(c) >= 0 and sum_c alpha(c) <= alpha(K) <= C, for every
+   gradient input.  Full statement wanted: ... /\ mu = alpha' - alpha /\ sum_c alpha(c) = alpha(K); this needs that no
+   gradient value reaches the sentinel 1e100 of the working-set search (then idx_up = idx_down = 0 can be selected):
+   compared / monitored on every step, not proved. *)
+Theorem C16_linear_solveSub_simplex_partial : forall (K : nat) (C : Q),
+  forall (k : lkind) (fuel : nat) (eps q : Q) (y : nat) (s : lsub Q), (0 < K)%nat -> 0 <= eps -> 0 <= q -> (1 <= K)%nat ->
+  SimOK K C (l_al s) -> SimOK K C (l_al (sub_simplex qops 1 K (Kq K) C k fuel eps q y s)).
+Proof. exact sub_simplex_constraints. Qed.
+Print Assumptions C16_linear_solveSub_simplex_partial.
+
+(* updateWeightVectors is linear in the step *)
+Theorem C16_linear_weight_update_is_linear : forall (K : nat) (k : lkind) (m1 m2 : nat -> Q) (y c : nat),
+  wstep qops K (Kq K) k (fun i => m1 i + m2 i) y c == wstep qops K (Kq K) k m1 y c + wstep qops K (Kq K) k m2 y c.
+Proof. exact wstep_add. Qed.
+Print Assumptions C16_linear_weight_update_is_linear.
+
+(* the w book-keeping: if  w_c = sum_i step(alpha_i)(c) x_i  holds before an example step of a box-type machine, it
+   holds after it (alpha_i replaced by the new row), and the box is kept - hence over every epoch history *)
+Theorem C16_linear_w_bookkeeping : forall (K : nat) (C : Q), 0 <= C ->
+  forall (k : lkind) (n dim : nat) (ys : nat -> nat) (xs : nat -> nat -> Q) (al : nat -> nat -> Q) (w : nat -> nat -> Q)
+         (i : nat) (eps q : Q) (wx : nat -> Q),
+  box_kind k -> (i < n)%nat -> BoxOK C (al i) -> Wbook K k n dim ys xs al w ->
+  let r := lin_step qops 1 K (Kq K) C k eps q (ys i) wx (al i) (xs i) w in
+  Wbook K k n dim ys xs (fun j => if (j =? i)%nat then r_al r else al j) (r_w r) /\ BoxOK C (r_al r).
+Proof. exact Wbook_lin_step. Qed.
+Print Assumptions C16_linear_w_bookkeeping.
+
+(* any step of any machine that moves alpha_i by mu and the weights by step(mu) x_i keeps the book-keeping *)
+Theorem C16_linear_w_bookkeeping_generic : forall (K : nat) (kind : lkind) (n dim : nat) (ys : nat -> nat)
+  (xs : nat -> nat -> Q) (al : nat -> nat -> Q) (w : nat -> nat -> Q) (i : nat) (mu al_i' : nat -> Q),
+  (i < n)%nat -> Wbook K kind n dim ys xs al w -> (forall c, al_i' c == al i c + mu c) ->
+  Wbook K kind n dim ys xs (fun j => if (j =? i)%nat then al_i' else al j)
+        (add_scaled qops K w (wstep qops K (Kq K) kind mu (ys i)) (xs i)).
+Proof. exact Wbook_step. Qed.
+Print Assumptions C16_linear_w_bookkeeping_generic.
+
+(* QpBoxLinear: every epoch over any schedule keeps 0 <= alpha <= bound and w = sum_i alpha_i y_i x_i *)
+Theorem C16_boxlinear_epoch : forall (n dim : nat) (bound reg offset : Q), 0 <= bound ->
+  forall (ys : nat -> Q) (xs : nat -> nat -> Q) (schedule : list nat) (st : (nat -> Q) * (nat -> Q)),
+  Forall (fun i => (i < n)%nat) schedule -> BLinv n dim bound ys xs st ->
+  BLinv n dim bound ys xs (boxlin_epoch qops 1 dim bound reg offset ys xs st schedule).
+Proof. exact boxlin_epoch_inv. Qed.
+Print Assumptions C16_boxlinear_epoch.
+
+Example C16_linear_hyps_sat : BoxOK 1 (fun _ => 0) /\ SimOK 3 1 (fun _ => 0) /\ box_kind LWW /\
+  Wbook 3 LWW 1 2 (fun _ => 0%nat) (fun _ _ => 1) (fun _ _ => 0) (fun _ _ => 0) /\
+  BLinv 1 2 1 (fun _ => 1) (fun _ _ => 1) (fun _ => 0, fun _ => 0).
+Proof. exact w_linear_hyps. Qed.
